@@ -100,7 +100,8 @@ func c12Gen(t *rapid.T) MetricCase {
 	default:
 		m.Op = rapid.SampledFrom(datagen.SetOps).Draw(t, "op")
 	}
-	exact = kind == "cmp" || m.Op == "%"
+	// ... and so does ^ with a negative base: (-3)^7200 is +Inf but (-3)^7200.000000000001 is NaN.
+	exact = kind == "cmp" || m.Op == "%" || m.Op == "^"
 	shape := rapid.SampledFrom([]string{"vv", "vv", "vs", "sv"}).Draw(t, "shape")
 	if kind == "set" {
 		shape = "vv"
